@@ -142,11 +142,8 @@ func (e *c13Env) openBlip(v4 bool) bool {
 	s := &c13BlipSession{handled: map[uint64]bool{}}
 	s.runner = NewBlipTesterClientRunner(e.t)
 	proto := db.CBMobileReplicationV3.SubprotocolString()
-	e.cl.Name = "blip-v3"
 	if v4 {
 		proto = db.CBMobileReplicationV4.SubprotocolString()
-		e.cl.Name = "blip-v4"
-		e.cl.UseCV = true
 	}
 	s.runner.SetSubprotocols([]string{proto})
 	s.btc = s.runner.NewBlipTesterClientOptsWithRT(e.rt, &BlipTesterClientOpts{
@@ -161,7 +158,9 @@ func (e *c13Env) openBlip(v4 bool) bool {
 		bctx.HandlerForProfile[profile] = s.wrap(profile, h)
 	}
 	e.blip = s
-	e.run.Count("blip_clients_"+strings.ToLower(strings.ReplaceAll(proto, "+", "")), 1)
+	if e.cl.Pulls == 0 {
+		e.run.Count("blip_clients_"+strings.ToLower(strings.ReplaceAll(proto, "+", "")), 1)
+	}
 	return true
 }
 
@@ -169,6 +168,7 @@ func (e *c13Env) closeBlip() {
 	if e.blip != nil && e.blip.btc != nil {
 		e.blip.btc.Close()
 	}
+	e.blip = nil
 }
 
 func c13BlipSeq(v any) string {
@@ -184,6 +184,10 @@ func c13BlipSeq(v any) string {
 
 // blipPull runs one one-shot pull since the last received sequence and applies the recorded messages.
 func (e *c13Env) blipPull() (*c13PullObs, bool) {
+	// a connection per pull: the user is loaded when the client connects, as for every REST request (a long-lived
+	// connection refreshes its user on a change notification that arrives some time after the write)
+	e.openBlip(e.blipV4)
+	defer e.closeBlip()
 	s, cl := e.blip, e.cl
 	s.mu.Lock()
 	s.msgs, s.caughtUp, s.expected, s.received = nil, 0, 0, 0
@@ -255,6 +259,10 @@ func (e *c13Env) blipPull() (*c13PullObs, bool) {
 			}
 			ro.Deleted, ro.Revoked = ro.Flags&1 != 0, ro.Flags&2 != 0
 			since = ro.Seq
+			if !e.ownDoc(ro.ID) {
+				e.run.Count("rows_of_other_histories_ignored", 1)
+				continue
+			}
 			wanted := i < len(m.Answers) && m.Answers[i] != nil
 			switch {
 			case ro.Revoked:
@@ -333,16 +341,5 @@ func (e *c13Env) blipPull() (*c13PullObs, bool) {
 	}
 	e.log("pull", "BLIP one-shot pull since="+cl.Since, 200, map[string]any{"messages": msgs, "rows": obs.Rows, "next_since": since})
 	cl.Since = since
-	// what the replica purged is purged from the client's store as well, so that it asks for the revision again
-	s.btcc.seqLock.Lock()
-	for _, d := range e.m.Docs {
-		if _, has := cl.Replica[d.ID]; !has {
-			if seq, ok := s.btcc._seqFromDocID[d.ID]; ok {
-				delete(s.btcc._seqStore, seq)
-				delete(s.btcc._seqFromDocID, d.ID)
-			}
-		}
-	}
-	s.btcc.seqLock.Unlock()
 	return obs, true
 }
